@@ -43,6 +43,7 @@ structure MsgOK (m : WMsg) : Prop where
   ndevs : m.devs.length ≤ 255
   fields : ∀ f ∈ m.fields, f.data.length ≤ 255 ∧ validBaseType f.bt = true
   devs : ∀ d ∈ m.devs, d.data.length ≤ 255
+  bytes : ∀ f ∈ m.fields, ∀ b ∈ f.data, b < 256      -- field data are bytes
 
 
 theorem hdr_bits : ∀ i, i < 16 →
@@ -342,12 +343,6 @@ theorem tsFromField_u32 (known : Bool) (arch : Nat) (ha : arch = 0 ∨ arch = 1)
 
 def noTs (fs : List WField) : Prop := ∀ f ∈ fs, f.num ≠ 253
 
-/-- message timestamps as the property's quantifier has them in compressed-header mode: a message has no
-field 253, or exactly one, a `uint32` value (base type uint32/uint32z) that is a valid date-time -/
-def TsOK (arch : Nat) (m : WMsg) : Prop :=
-  noTs m.fields ∨ ∃ pre f post v, m.fields = pre ++ f :: post ∧ noTs pre ∧ noTs post ∧ f.num = 253 ∧ f.tag = 7 ∧
-    (f.bt = 0x86 ∨ f.bt = 0x8C) ∧ u32Of arch f.data = some v ∧ dateTimeMin ≤ v ∧ v < u32Invalid
-
 theorem find_noTs (fs : List WField) (h : noTs fs) : fs.find? (·.num == tsFieldNum) = none := by
   rw [List.find?_eq_none]; intro f hf; simpa [tsFieldNum] using h f hf
 
@@ -400,23 +395,86 @@ theorem u32Of_some_length (arch : Nat) (bs : Bytes) (v : Nat) (h : u32Of arch bs
   match bs, h with
   | [a, b, c, d], _ => exact ⟨a, b, c, d, rfl⟩
 
-theorem trackTs_ts (known : Bool) (arch : Nat) (ha : arch = 0 ∨ arch = 1) (m : WMsg) (pre post : List WField)
-    (f : WField) (v : Nat) (hm : m.fields = pre ++ f :: post) (h1 : noTs pre) (h2 : noTs post) (hf : f.num = 253)
-    (hbt : f.bt = 0x86 ∨ f.bt = 0x8C) (hv : u32Of arch f.data = some v) (st : DecState) :
-    trackTs known arch st (recFieldsOf m) = { st with timestamp := v, lastOff := v % 32 } := by
-  obtain ⟨a, b, c, d, hd⟩ := u32Of_some_length arch f.data v hv
-  simp only [recFieldsOf, hm, List.map_append, List.map_cons]
-  rw [trackTs_append, trackTs_fields_noTs known arch pre h1]
-  have : trackTs known arch st
-      ((⟨f.num, f.data.length % 256, f.bt⟩, f.data) :: post.map fun f => (⟨f.num, f.data.length % 256, f.bt⟩, f.data)) =
-      trackTs known arch { st with timestamp := v, lastOff := v % 32 }
-        (post.map fun f => (⟨f.num, f.data.length % 256, f.bt⟩, f.data)) := by
-    have e := tsFromField_u32 known arch ha f.bt a b c d (Or.inr hbt)
-    rw [← hd, hv] at e
-    simp only [trackTs, List.foldl_cons, hf, tsFieldNum, beq_self_eq_true, if_true]
+/-- a plain uint32 field 253: what it looks like and what every decoder reads from it -/
+theorem cleanTs_some (known : Bool) (arch : Nat) (ha : arch = 0 ∨ arch = 1) (f : WField) (v : Nat)
+    (hnum : f.num = 253) (hb : ∀ b ∈ f.data, b < 256) (h : cleanTs arch f = some v) :
+    f.tag = 7 ∧ u32Of arch f.data = some v ∧ v < 4294967296 ∧
+      tsFromField known arch ⟨f.num, f.data.length % 256, f.bt⟩ f.data = some v := by
+  unfold cleanTs at h
+  split at h
+  · rename_i hc
+    simp only [Bool.and_eq_true, Bool.or_eq_true, beq_iff_eq, tagUint32] at hc
+    obtain ⟨a, b, c, d, hd⟩ := u32Of_some_length arch f.data v h
+    have e := tsFromField_u32 known arch ha f.bt a b c d (Or.inr hc.2)
     have hl : f.data.length % 256 = 4 := by rw [hd]; rfl
-    rw [hl, e]
-  rw [this, trackTs_fields_noTs known arch post h2]
+    refine ⟨hc.1, h, ?_, ?_⟩
+    · have ha' := hb a (by rw [hd]; simp); have hb' := hb b (by rw [hd]; simp)
+      have hc' := hb c (by rw [hd]; simp); have hd' := hb d (by rw [hd]; simp)
+      rw [hd] at h
+      rcases ha with rfl | rfl <;> simp [u32Of] at h <;> omega
+    · rw [hnum, hl, hd, e, ← hd, h]
+  · cases h
+
+/-- what relates the encoder's `lastTimestamp` to the decoder's timestamp state: the encoder either does
+not know (0), or holds exactly the decoder's active timestamp (and the decoder's last offset is that
+timestamp's) -/
+def LastInv (last : Nat) (d : DecState) : Prop :=
+  last = 0 ∨ (d.timestamp = last ∧ d.lastOff = last % 32 ∧ last < 4294967296)
+
+/-- FIELDS OF ONE RECORD: the encoder's loop over the fields it writes and the decoder's timestamp tracking
+over the same fields keep `LastInv` — whatever the fields 253 are (several, odd types, odd sizes, invalid
+values), whether or not the decoder's factory knows the message. -/
+theorem track_sim (known : Bool) (arch : Nat) (ha : arch = 0 ∨ arch = 1) (fs : List WField)
+    (hb : ∀ f ∈ fs, ∀ b ∈ f.data, b < 256) :
+    ∀ (last : Nat) (st : DecState), LastInv last st →
+      LastInv (trackLast arch last fs) (trackTs known arch st (fs.map fun f => (⟨f.num, f.data.length % 256, f.bt⟩, f.data))) := by
+  induction fs with
+  | nil => intro last st h; exact h
+  | cons f fs ih =>
+    intro last st h
+    have ih' := ih (fun g hg => hb g (by simp [hg]))
+    simp only [trackLast, trackTs, List.map_cons, List.foldl_cons] at ih' ⊢
+    by_cases hn : (f.num == tsFieldNum) = true
+    · simp only [hn, if_true]
+      have hnum : f.num = 253 := by simpa [tsFieldNum] using hn
+      cases hc : cleanTs arch f with
+      | none => exact ih' _ _ (Or.inl rfl)
+      | some v =>
+        obtain ⟨_, _, hv, ht⟩ := cleanTs_some known arch ha f v hnum (hb f (by simp)) hc
+        rw [ht]
+        exact ih' _ _ (Or.inr ⟨rfl, rfl, hv⟩)
+    · have hn' : (f.num == tsFieldNum) = false := by simpa using hn
+      simp only [hn', Bool.false_eq_true, if_false]
+      exact ih' _ _ h
+
+theorem trackLast_noTs (arch last : Nat) (fs : List WField) (h : noTs fs) : trackLast arch last fs = last := by
+  induction fs generalizing last with
+  | nil => rfl
+  | cons g gs ih =>
+    have hg : (g.num == tsFieldNum) = false := by simpa [tsFieldNum] using h g (by simp)
+    simp only [trackLast, List.foldl_cons, hg, Bool.false_eq_true, if_false]
+    exact ih last (fun x hx => h x (by simp [hx]))
+
+theorem trackLast_append (arch last : Nat) (a b : List WField) :
+    trackLast arch last (a ++ b) = trackLast arch (trackLast arch last a) b := by
+  simp [trackLast, List.foldl_append]
+
+/-- the encoder's reading of the message timestamp is a value other than the sentinel: the message splits at
+its first field 253, which is a plain uint32 of that value -/
+theorem encTsOf_split (arch : Nat) (m : WMsg) (h : encTsOf arch m ≠ u32Invalid) :
+    ∃ pre f post, m.fields = pre ++ f :: post ∧ noTs pre ∧ f.num = 253 ∧ cleanTs arch f = some (encTsOf arch m) := by
+  unfold encTsOf at h ⊢
+  cases hf : m.fields.find? (·.num == tsFieldNum) with
+  | none => rw [hf] at h; exact absurd rfl h
+  | some f =>
+    rw [hf] at h
+    simp only at h ⊢
+    obtain ⟨hp, pre, post, hsplit, hpre⟩ := List.find?_eq_some_iff_append.mp hf
+    refine ⟨pre, f, post, hsplit, ?_, by simpa [tsFieldNum] using hp, ?_⟩
+    · intro g hg; have := hpre g hg; simpa [tsFieldNum] using this
+    · cases hc : cleanTs arch f with
+      | none => rw [hc] at h; exact absurd rfl h
+      | some v => simp
 
 /-! ### the record loop -/
 
@@ -442,16 +500,10 @@ def RecMatches (arch : Nat) (m : WMsg) (r : WRec) : Prop :=
    (r.ts = some (tsOf arch m) ∧ tsOf arch m ≠ u32Invalid ∧
       r.fields = recFieldsOf { m with fields := removeFirst tsFieldNum m.fields }))
 
-structure TsInv (e : EncState) (d : DecState) (lo : Nat) : Prop where
-  ts : d.timestamp = lo
-  off : d.lastOff = lo % 32
-  ref_le : e.tsRef ≤ lo
-  near : lo - e.tsRef ≤ 31
-  lt : lo < 4294967296
-
 theorem MsgOK.removeTs {m : WMsg} (h : MsgOK m) (fs : List WField) (hsub : ∀ f ∈ fs, f ∈ m.fields)
     (hlen : fs.length ≤ m.fields.length) : MsgOK { m with fields := fs } :=
-  ⟨h.num, by have := h.nfields; simp only; omega, h.ndevs, fun f hf => h.fields f (hsub f hf), h.devs⟩
+  ⟨h.num, by have := h.nfields; simp only; omega, h.ndevs, fun f hf => h.fields f (hsub f hf), h.devs,
+    fun f hf => h.bytes f (hsub f hf)⟩
 
 theorem payload_length_pos (h : Nat) (m : WMsg) : 0 < (h :: payload m).length := by simp
 
@@ -524,25 +576,43 @@ def dataOf (items : List Item) : List WRec := items.filterMap (fun | .data x => 
 theorem dataOf_append (a b : List Item) : dataOf (a ++ b) = dataOf a ++ dataOf b := by
   simp [dataOf, List.filterMap_append]
 
+/-- the two outcomes of `compressTimestampIntoHeader` -/
+theorem compressTs_cases (arch r l : Nat) (m : WMsg) :
+    (∃ r', compressTs arch r l m = (r', trackLast arch l m.fields, none)) ∨
+    (compressTs arch r l m = (r, trackLast arch l m.fields, some (encTsOf arch m % 32)) ∧
+      encTsOf arch m ≠ u32Invalid ∧ dateTimeMin ≤ encTsOf arch m ∧
+      (encTsOf arch m + 4294967296 - l) % 4294967296 ≤ 31) := by
+  unfold compressTs
+  by_cases h1 : (encTsOf arch m == u32Invalid) = true
+  · exact Or.inl ⟨r, by simp only [h1, if_true]⟩
+  · by_cases h2 : encTsOf arch m < dateTimeMin
+    · exact Or.inl ⟨r, by simp only [h1, h2, if_true, if_false, Bool.false_eq_true]⟩
+    · by_cases h3 : ((decide ((encTsOf arch m + 4294967296 - r) % 4294967296 > 31) ||
+          decide ((encTsOf arch m + 4294967296 - l) % 4294967296 > 31)) = true)
+      · exact Or.inl ⟨encTsOf arch m, by simp only [h1, h2, h3, if_true, if_false, Bool.false_eq_true]⟩
+      · refine Or.inr ⟨by simp only [h1, h2, h3, if_false, Bool.false_eq_true], by simpa using h1, by omega, ?_⟩
+        simp only [Bool.or_eq_true, decide_eq_true_eq, not_or] at h3
+        omega
+
 /-- ONE MESSAGE: whatever the encoder writes for `m` (definition when new, compressed header or not), the
-decoder — related to the encoder by the invariants — returns a record matching `m` and the invariants hold again. -/
+decoder — related to the encoder by the invariants — returns a record matching `m` and the invariants hold
+again. No hypothesis on the message's timestamp fields. -/
 theorem encodeMsg_step (tsKnown : Nat → Bool) (o : Opts) (ha : o.arch = 0 ∨ o.arch = 1)
-    (e : EncState) (d : DecState) (lo : Nat) (m : WMsg) (hm : MsgOK m)
+    (e : EncState) (d : DecState) (m : WMsg) (hm : MsgOK m)
     (hcap : o.compress = true → e.lru.cap ≤ 4)
     (inv : DefInv o.arch e.lru d)
-    (hts : o.compress = true → TsInv e d lo ∧ TsOK o.arch m ∧ (tsOf o.arch m ≠ u32Invalid → lo ≤ tsOf o.arch m))
+    (hts : o.compress = true → LastInv e.tsLast d)
     (tail : Bytes) :
-    ∃ d' rec lo' k pre,
+    ∃ d' rec k pre,
       RecMatches o.arch m rec ∧ DefInv o.arch (encodeMsg o e m).1.lru d' ∧
       (encodeMsg o e m).1.lru.cap = e.lru.cap ∧
-      (o.compress = true → TsInv (encodeMsg o e m).1 d' lo' ∧
-        lo' = if tsOf o.arch m = u32Invalid then lo else tsOf o.arch m) ∧
+      (o.compress = true → LastInv (encodeMsg o e m).1.tsLast d') ∧
       k ≤ (encodeMsg o e m).2.length ∧ dataOf pre = [rec] ∧
       ∀ fuel remaining,
         decodeRecords tsKnown (fuel + k) d ((encodeMsg o e m).2.length + remaining) ((encodeMsg o e m).2 ++ tail) =
           (pre ++ (decodeRecords tsKnown fuel d' remaining tail).1, (decodeRecords tsKnown fuel d' remaining tail).2) := by
   -- the uncompressed emission, shared by several cases
-  have plain : ∀ (tsRef' : Nat),
+  have plain :
       ∃ d1, d1.timestamp = d.timestamp ∧ d1.lastOff = d.lastOff ∧
         let p := e.lru.put (defBytes o.arch m)
         let out := (if p.2.2 then defRecord o.arch p.2.1 m else []) ++ (p.2.1 :: payload m)
@@ -551,7 +621,6 @@ theorem encodeMsg_step (tsKnown : Nat → Bool) (o : Opts) (ha : o.arch = 0 ∨ 
         ∃ k pre, k ≤ out.length ∧ dataOf pre = [⟨p.2.1, m.num, o.arch, none, recFieldsOf m, recDevsOf m⟩] ∧
           ∀ fuel remaining, decodeRecords tsKnown (fuel + k) d (out.length + remaining) (out ++ tail) =
             (pre ++ (decodeRecords tsKnown fuel d' remaining tail).1, (decodeRecords tsKnown fuel d' remaining tail).2) := by
-    intro _
     obtain ⟨d1, _, h2, h3, h4, h5, h6, k, pre, _, hk, hpre, hdec⟩ :=
       emit_step tsKnown o.arch ha e.lru d m hm inv (fun i => i) tail
         (fun i _ => ⟨i, m.num, o.arch, none, recFieldsOf m, recDevsOf m⟩)
@@ -560,105 +629,95 @@ theorem encodeMsg_step (tsKnown : Nat → Bool) (o : Opts) (ha : o.arch = 0 ∨ 
         (fun _ s => trackTs_defs _ _ _ s)
     exact ⟨d1, h2, h3, h4, h5, k, pre, hk, hpre, hdec⟩
   by_cases hc : o.compress = true
-  · obtain ⟨tinv, tok, tlo⟩ := hts hc
-    rcases tok with hno | ⟨pre, f, post, v, hf, hpre, hpost, hnum, htag, hbt, hv, hmin, hmax⟩
-    · -- no timestamp field: written as it is, nothing changes on either side
-      have hinv := tsOf_noTs o.arch m hno
-      obtain ⟨d1, t1, t2, hI, hC, k, pre, hk, hpre, hdec⟩ := plain e.tsRef
-      refine ⟨(trackTs (tsKnown m.num) o.arch d1 (recFieldsOf m)), (⟨(e.lru.put (defBytes o.arch m)).2.1, m.num, o.arch, none, recFieldsOf m, recDevsOf m⟩ : WRec), lo, k, pre, ⟨rfl, rfl, rfl, Or.inl ⟨rfl, rfl⟩⟩, ?_, ?_, ?_, (by simpa [encodeMsg, hc, compressTs, hinv] using hk), ?_, ?_⟩
-      · simpa [encodeMsg, hc, compressTs, hinv] using hI
-      · simpa [encodeMsg, hc, compressTs, hinv] using hC
+  · have linv := hts hc
+    rcases compressTs_cases o.arch e.tsRef e.tsLast m with ⟨r', hct⟩ | ⟨hct, hne, hmin, hnear⟩
+    · -- written with a normal header (no timestamp, unsupported one, below the minimum, or a roll-over)
+      obtain ⟨d1, t1, t2, hI, hC, k, pre, hk, hpre, hdec⟩ := plain
+      refine ⟨(trackTs (tsKnown m.num) o.arch d1 (recFieldsOf m)), (⟨(e.lru.put (defBytes o.arch m)).2.1, m.num, o.arch, none, recFieldsOf m, recDevsOf m⟩ : WRec), k, pre, ⟨rfl, rfl, rfl, Or.inl ⟨rfl, rfl⟩⟩, ?_, ?_, ?_, (by simpa [encodeMsg, hc, hct] using hk), ?_, ?_⟩
+      · simpa [encodeMsg, hc, hct] using hI
+      · simpa [encodeMsg, hc, hct] using hC
       · intro _
-        have ht : trackTs (tsKnown m.num) o.arch d1 (recFieldsOf m) = d1 := trackTs_fields_noTs _ _ _ hno d1
-        refine ⟨?_, by simp [hinv]⟩
-        simp only [encodeMsg, hc, compressTs, hinv, if_true, beq_self_eq_true, ht]
-        exact ⟨by rw [t1]; exact tinv.ts, by rw [t2]; exact tinv.off, tinv.ref_le, tinv.near, tinv.lt⟩
-      · simpa [encodeMsg, hc, compressTs, hinv] using hpre
-      · simpa [encodeMsg, hc, compressTs, hinv] using hdec
-    · have hval : tsOf o.arch m = v := tsOf_ts o.arch m pre post f v hf hpre hnum htag hv
-      have hne : (v == u32Invalid) = false := by simp [u32Invalid] at hmax ⊢; omega
-      have hne' : v ≠ u32Invalid := by simp [u32Invalid] at hmax ⊢; omega
-      have hge : ¬ v < dateTimeMin := by omega
-      have hlo : lo ≤ v := by
-        have h := tlo (by rw [hval]; simp [u32Invalid] at hmax ⊢; omega)
-        rwa [hval] at h
-      have hv32 : v < 4294967296 := by simp [u32Invalid] at hmax; omega
-      have hsub : (v + 4294967296 - e.tsRef) % 4294967296 = v - e.tsRef := by
-        have := tinv.ref_le; omega
-      by_cases hroll : v - e.tsRef > 31
-      · -- roll-over: the reference moves, the message is written with its full timestamp
-        obtain ⟨d1, t1, t2, hI, hC, k, pre', hk, hpre', hdec⟩ := plain v
-        have hct : compressTs o.arch e.tsRef m = (v, none) := by
-          simp only [compressTs, hval, hne, hge, hsub, hroll, if_true, if_false, Bool.false_eq_true]
-        refine ⟨(trackTs (tsKnown m.num) o.arch d1 (recFieldsOf m)), (⟨(e.lru.put (defBytes o.arch m)).2.1, m.num, o.arch, none, recFieldsOf m, recDevsOf m⟩ : WRec), v, k, pre', ⟨rfl, rfl, rfl, Or.inl ⟨rfl, rfl⟩⟩, ?_, ?_, ?_, (by simpa [encodeMsg, hc, hct] using hk), ?_, ?_⟩
-        · simpa [encodeMsg, hc, hct] using hI
-        · simpa [encodeMsg, hc, hct] using hC
-        · intro _
-          have ht := trackTs_ts (tsKnown m.num) o.arch ha m pre post f v hf hpre hpost hnum hbt hv d1
-          refine ⟨?_, by simp [hval, hne']⟩
-          simp only [encodeMsg, hc, hct, if_true, ht]
-          exact ⟨rfl, rfl, Nat.le_refl _, by simp, hv32⟩
-        · simpa [encodeMsg, hc, hct] using hpre'
-        · simpa [encodeMsg, hc, hct] using hdec
-      · -- compressed: the timestamp travels in the record header
-        have hct : compressTs o.arch e.tsRef m = (e.tsRef, some (v % 32)) := by
-          simp only [compressTs, hval, hne, hge, hsub, hroll, if_false, Bool.false_eq_true]
-        have hrm : removeFirst tsFieldNum m.fields = pre ++ post := by
-          rw [hf]; exact removeFirst_ts pre post f hpre hnum
-        let m' : WMsg := { m with fields := removeFirst tsFieldNum m.fields }
-        have hm' : MsgOK m' := hm.removeTs _ (by
-          intro g hg; rw [hrm] at hg; rw [hf]
-          rcases List.mem_append.mp hg with h | h
-          · exact List.mem_append_left _ h
-          · exact List.mem_append_right _ (List.mem_cons_of_mem _ h)) (by rw [hrm, hf]; simp)
-        have hno' : noTs m'.fields := by
-          show noTs (removeFirst tsFieldNum m.fields); rw [hrm]; exact noTs_append hpre hpost
-        have hcap4 := hcap hc
-        obtain ⟨d1, _, t1, t2, hI, hC, hicap, k, pre', _, hk, hpre', hdec⟩ :=
-          emit_step tsKnown o.arch ha e.lru d m' hm' inv (fun i => (0x80 ||| (v % 32)) ||| ((i <<< 5) % 256)) tail
-            (fun i s => ⟨(0x80 ||| (v % 32)) ||| ((i <<< 5) % 256), m'.num, o.arch,
-                some (decompressHdr s ((0x80 ||| (v % 32)) ||| ((i <<< 5) % 256))).2, recFieldsOf m', recDevsOf m'⟩)
-            (fun i s => trackTs (tsKnown m'.num) o.arch (decompressHdr s ((0x80 ||| (v % 32)) ||| ((i <<< 5) % 256))).1 (recFieldsOf m'))
-            (fun i s hi hl => decodeRecord_cdata tsKnown s o.arch i (v % 32) m' tail (by omega) (Nat.mod_lt _ (by decide)) hm' hl)
-            (fun _ s => by rw [trackTs_defs]; rfl)
-        generalize hp : e.lru.put (defBytes o.arch m') = p at *
-        obtain ⟨l', i, isNew⟩ := p
-        dsimp only at hI hC hicap hpre' hdec hk
-        have hi4 : i < 4 := by omega
-        obtain ⟨_, _, _, hoff⟩ := compressed_hdr_bits i hi4 (v % 32) (Nat.mod_lt _ (by decide))
-        -- the reconstructed timestamp is the original one
-        have hrec : (decompressHdr d1 ((0x80 ||| (v % 32)) ||| ((i <<< 5) % 256))).2 = v := by
-          simp only [decompressHdr, hoff, t1, t2, tinv.ts, tinv.off]
-          have := tinv.near; have := tinv.ref_le; omega
-        have hst : (decompressHdr d1 ((0x80 ||| (v % 32)) ||| ((i <<< 5) % 256))).1 =
-            { d1 with timestamp := v, lastOff := v % 32 } := by
-          have := hrec
-          simp only [decompressHdr, hoff] at this ⊢
-          rw [this]
-        have htr : trackTs (tsKnown m'.num) o.arch (decompressHdr d1 ((0x80 ||| (v % 32)) ||| ((i <<< 5) % 256))).1
-            (recFieldsOf m') = { d1 with timestamp := v, lastOff := v % 32 } := by
-          rw [hst]; exact trackTs_fields_noTs _ _ _ hno' _
-        have hem : encodeMsg o e m = ({ lru := l', tsRef := e.tsRef },
-            (if isNew then defRecord o.arch i m' else []) ++ (((0x80 ||| (v % 32)) ||| ((i <<< 5) % 256)) :: payload m')) := by
-          simp only [encodeMsg, hc, hct, if_true]
-          show _ = _
-          simp only [m'] at hp
-          rw [hp]
-        refine ⟨trackTs (tsKnown m'.num) o.arch (decompressHdr d1 ((0x80 ||| (v % 32)) ||| ((i <<< 5) % 256))).1 (recFieldsOf m'), _, v, k, pre', ?_, ?_, ?_, ?_, (by rw [hem]; exact hk), hpre', ?_⟩
-        · exact ⟨rfl, rfl, rfl, Or.inr ⟨by rw [hrec, hval], by rw [hval]; simp [u32Invalid] at hmax ⊢; omega, rfl⟩⟩
-        · rw [hem]; exact hI
-        · rw [hem]; exact hC
-        · intro _
-          refine ⟨?_, by simp [hval, hne']⟩
-          rw [hem, htr]
-          refine ⟨rfl, rfl, ?_, ?_, hv32⟩
-          · show e.tsRef ≤ v; have := tinv.ref_le; omega
-          · show v - e.tsRef ≤ 31; omega
-        · rw [hem]; exact hdec
+        have hl1 : LastInv e.tsLast d1 := by
+          rcases linv with h | ⟨h1, h2, h3⟩
+          · exact Or.inl h
+          · exact Or.inr ⟨by rw [t1]; exact h1, by rw [t2]; exact h2, h3⟩
+        have := track_sim (tsKnown m.num) o.arch ha m.fields hm.bytes e.tsLast d1 hl1
+        simpa [encodeMsg, hc, hct, recFieldsOf] using this
+      · simpa [encodeMsg, hc, hct] using hpre
+      · simpa [encodeMsg, hc, hct] using hdec
+    · -- compressed: the timestamp travels in the record header
+      obtain ⟨pre, f, post, hf, hpre, hnum, hclean⟩ := encTsOf_split o.arch m hne
+      generalize hv : encTsOf o.arch m = v at *
+      have hfb : ∀ b ∈ f.data, b < 256 := hm.bytes f (by rw [hf]; simp)
+      obtain ⟨htag, hu32, hv32, _⟩ := cleanTs_some (tsKnown m.num) o.arch ha f v hnum hfb hclean
+      have hval : tsOf o.arch m = v := tsOf_ts o.arch m pre post f v hf hpre hnum htag hu32
+      have hmin' : 268435456 ≤ v := by simpa [dateTimeMin] using hmin
+      have hne' : v ≠ u32Invalid := hne
+      -- the encoder knows the decoder's timestamp (0 = "unknown" is never within 32 s of a valid timestamp)
+      obtain ⟨hdts, hdoff, hl32⟩ : d.timestamp = e.tsLast ∧ d.lastOff = e.tsLast % 32 ∧ e.tsLast < 4294967296 := by
+        rcases linv with h | h
+        · rw [h] at hnear; omega
+        · exact h
+      have hrm : removeFirst tsFieldNum m.fields = pre ++ post := by
+        rw [hf]; exact removeFirst_ts pre post f hpre hnum
+      let m' : WMsg := { m with fields := removeFirst tsFieldNum m.fields }
+      have hm' : MsgOK m' := hm.removeTs _ (by
+        intro g hg; rw [hrm] at hg; rw [hf]
+        rcases List.mem_append.mp hg with h | h
+        · exact List.mem_append_left _ h
+        · exact List.mem_append_right _ (List.mem_cons_of_mem _ h)) (by rw [hrm, hf]; simp)
+      have hcap4 := hcap hc
+      obtain ⟨d1, _, t1, t2, hI, hC, hicap, k, pre', _, hk, hpre', hdec⟩ :=
+        emit_step tsKnown o.arch ha e.lru d m' hm' inv (fun i => (0x80 ||| (v % 32)) ||| ((i <<< 5) % 256)) tail
+          (fun i s => ⟨(0x80 ||| (v % 32)) ||| ((i <<< 5) % 256), m'.num, o.arch,
+              some (decompressHdr s ((0x80 ||| (v % 32)) ||| ((i <<< 5) % 256))).2, recFieldsOf m', recDevsOf m'⟩)
+          (fun i s => trackTs (tsKnown m'.num) o.arch (decompressHdr s ((0x80 ||| (v % 32)) ||| ((i <<< 5) % 256))).1 (recFieldsOf m'))
+          (fun i s hi hl => decodeRecord_cdata tsKnown s o.arch i (v % 32) m' tail (by omega) (Nat.mod_lt _ (by decide)) hm' hl)
+          (fun _ s => by rw [trackTs_defs]; rfl)
+      generalize hp : e.lru.put (defBytes o.arch m') = p at *
+      obtain ⟨l', i, isNew⟩ := p
+      dsimp only at hI hC hicap hpre' hdec hk
+      have hi4 : i < 4 := by omega
+      obtain ⟨_, _, _, hoff⟩ := compressed_hdr_bits i hi4 (v % 32) (Nat.mod_lt _ (by decide))
+      -- the reconstructed timestamp is the original one
+      have hrec : (decompressHdr d1 ((0x80 ||| (v % 32)) ||| ((i <<< 5) % 256))).2 = v := by
+        simp only [decompressHdr, hoff, t1, t2, hdts, hdoff]
+        omega
+      have hst : (decompressHdr d1 ((0x80 ||| (v % 32)) ||| ((i <<< 5) % 256))).1 =
+          { d1 with timestamp := v, lastOff := v % 32 } := by
+        have := hrec
+        simp only [decompressHdr, hoff] at this ⊢
+        rw [this]
+      have hem : encodeMsg o e m = ({ lru := l', tsRef := e.tsRef, tsLast := trackLast o.arch e.tsLast m.fields },
+          (if isNew then defRecord o.arch i m' else []) ++ (((0x80 ||| (v % 32)) ||| ((i <<< 5) % 256)) :: payload m')) := by
+        simp only [encodeMsg, hc, hct, if_true]
+        show _ = _
+        simp only [m'] at hp
+        rw [hp]
+      refine ⟨trackTs (tsKnown m'.num) o.arch (decompressHdr d1 ((0x80 ||| (v % 32)) ||| ((i <<< 5) % 256))).1 (recFieldsOf m'), _, k, pre', ?_, ?_, ?_, ?_, (by rw [hem]; exact hk), hpre', ?_⟩
+      · exact ⟨rfl, rfl, rfl, Or.inr ⟨by rw [hrec, hval], by rw [hval]; exact hne', rfl⟩⟩
+      · rw [hem]; exact hI
+      · rw [hem]; exact hC
+      · intro _
+        rw [hem, hst]
+        -- the remaining fields (further fields 253 included) are tracked by both sides from `v` on
+        have hlast : trackLast o.arch e.tsLast m.fields = trackLast o.arch v post := by
+          rw [hf, trackLast_append, trackLast_noTs _ _ _ hpre]
+          simp [trackLast, hnum, tsFieldNum, hclean]
+        have hfs : recFieldsOf m' = (pre.map fun f => ((⟨f.num, f.data.length % 256, f.bt⟩ : FieldDef), f.data)) ++
+            (post.map fun f => ((⟨f.num, f.data.length % 256, f.bt⟩ : FieldDef), f.data)) := by
+          show (removeFirst tsFieldNum m.fields).map _ = _
+          rw [hrm, List.map_append]
+        show LastInv (trackLast o.arch e.tsLast m.fields) _
+        rw [hlast, hfs, trackTs_append, trackTs_fields_noTs _ _ _ hpre]
+        exact track_sim (tsKnown m'.num) o.arch ha post
+          (fun g hg => hm.bytes g (by rw [hf]; exact List.mem_append_right _ (List.mem_cons_of_mem _ hg)))
+          v _ (Or.inr ⟨rfl, rfl, hv32⟩)
+      · rw [hem]; exact hdec
   · -- normal headers only
     have hc' : o.compress = false := by simpa using hc
-    obtain ⟨d1, t1, t2, hI, hC, k, pre, hk, hpre, hdec⟩ := plain e.tsRef
-    refine ⟨(trackTs (tsKnown m.num) o.arch d1 (recFieldsOf m)), (⟨(e.lru.put (defBytes o.arch m)).2.1, m.num, o.arch, none, recFieldsOf m, recDevsOf m⟩ : WRec), lo, k, pre, ⟨rfl, rfl, rfl, Or.inl ⟨rfl, rfl⟩⟩, ?_, ?_, by intro h; exact absurd h hc, (by simpa [encodeMsg, hc'] using hk), ?_, ?_⟩
+    obtain ⟨d1, t1, t2, hI, hC, k, pre, hk, hpre, hdec⟩ := plain
+    refine ⟨(trackTs (tsKnown m.num) o.arch d1 (recFieldsOf m)), (⟨(e.lru.put (defBytes o.arch m)).2.1, m.num, o.arch, none, recFieldsOf m, recDevsOf m⟩ : WRec), k, pre, ⟨rfl, rfl, rfl, Or.inl ⟨rfl, rfl⟩⟩, ?_, ?_, by intro h; exact absurd h hc, (by simpa [encodeMsg, hc'] using hk), ?_, ?_⟩
     · simpa [encodeMsg, hc'] using hI
     · simpa [encodeMsg, hc'] using hC
     · simpa [encodeMsg, hc'] using hpre
@@ -677,39 +736,30 @@ theorem AllMatch.length_eq {α β : Type} {R : α → β → Prop} {as : List α
   | nil => rfl
   | cons _ _ ih => simp [ih]
 
-/-- timestamps are valid date-times, at most one per message, and never go backwards (the quantifier of
-the compressed-timestamp part of C01 on the pinned tree; see finding KF-C01-ts for what happens otherwise) -/
-def TsMono (arch : Nat) : Nat → List WMsg → Prop
-  | _, [] => True
-  | lo, m :: ms => TsOK arch m ∧ (tsOf arch m ≠ u32Invalid → lo ≤ tsOf arch m) ∧
-      TsMono arch (if tsOf arch m = u32Invalid then lo else tsOf arch m) ms
-
 theorem encodeMsgs_cons (o : Opts) (e : EncState) (m : WMsg) (ms : List WMsg) :
     encodeMsgs o e (m :: ms) = (encodeMsg o e m).2 ++ encodeMsgs o (encodeMsg o e m).1 ms := by
   simp [encodeMsgs]
 
 theorem encodeMsgs_roundtrip (tsKnown : Nat → Bool) (o : Opts) (ha : o.arch = 0 ∨ o.arch = 1) (ms : List WMsg) :
-    ∀ (e : EncState) (d : DecState) (lo : Nat), (∀ m ∈ ms, MsgOK m) → DefInv o.arch e.lru d →
-      (o.compress = true → e.lru.cap ≤ 4) → (o.compress = true → TsInv e d lo ∧ TsMono o.arch lo ms) →
+    ∀ (e : EncState) (d : DecState), (∀ m ∈ ms, MsgOK m) → DefInv o.arch e.lru d →
+      (o.compress = true → e.lru.cap ≤ 4) → (o.compress = true → LastInv e.tsLast d) →
       ∀ (tail : Bytes) (fuel : Nat), (encodeMsgs o e ms).length ≤ fuel →
       ∃ items, decodeRecords tsKnown fuel d (encodeMsgs o e ms).length (encodeMsgs o e ms ++ tail) = (items, .ok tail) ∧
         AllMatch (RecMatches o.arch) ms (dataOf items) := by
   induction ms with
   | nil =>
-    intro e d lo _ _ _ _ tail fuel _
+    intro e d _ _ _ _ tail fuel _
     exact ⟨[], by simp [encodeMsgs, decodeRecords_done], by simpa [dataOf] using AllMatch.nil⟩
   | cons m ms ih =>
-    intro e d lo hok inv hcap hts tail fuel hfuel
+    intro e d hok inv hcap hts tail fuel hfuel
     have hm := hok m (by simp)
-    obtain ⟨d', rec, lo', k, pre, hmatch, inv', hcap', hts', hk, hpre, hdec⟩ :=
-      encodeMsg_step tsKnown o ha e d lo m hm hcap inv
-        (fun hc => ⟨(hts hc).1, (hts hc).2.1, (hts hc).2.2.1⟩)
+    obtain ⟨d', rec, k, pre, hmatch, inv', hcap', hts', hk, hpre, hdec⟩ :=
+      encodeMsg_step tsKnown o ha e d m hm hcap inv hts
         (encodeMsgs o (encodeMsg o e m).1 ms ++ tail)
     rw [encodeMsgs_cons] at hfuel ⊢
     simp only [List.length_append] at hfuel
-    obtain ⟨items, hrest, hall⟩ := ih (encodeMsg o e m).1 d' lo' (fun x hx => hok x (by simp [hx])) inv'
-      (fun hc => by rw [hcap']; exact hcap hc)
-      (fun hc => ⟨(hts' hc).1, by rw [(hts' hc).2]; exact (hts hc).2.2.2⟩)
+    obtain ⟨items, hrest, hall⟩ := ih (encodeMsg o e m).1 d' (fun x hx => hok x (by simp [hx])) inv'
+      (fun hc => by rw [hcap']; exact hcap hc) hts'
       tail (fuel - k) (by omega)
     refine ⟨pre ++ items, ?_, ?_⟩
     · have := hdec (fuel - k) (encodeMsgs o (encodeMsg o e m).1 ms).length
@@ -718,6 +768,110 @@ theorem encodeMsgs_roundtrip (tsKnown : Nat → Bool) (o : Opts) (ha : o.arch = 
       rw [this, hrest]
     · rw [dataOf_append, hpre]
       exact AllMatch.cons hmatch hall
+
+/-! ### what the repair leaves unchanged: valid, unique, non-decreasing timestamps -/
+
+/-- `compressTimestampIntoHeader` of the pinned tree (before the repair): reference only -/
+def compressTsOld (arch tsRef : Nat) (m : WMsg) : Nat × Option Nat :=
+  let ts := tsOf arch m
+  if ts == u32Invalid then (tsRef, none)
+  else if ts < dateTimeMin then (tsRef, none)
+  else if (ts + 4294967296 - tsRef) % 4294967296 > 31 then (ts, none)
+  else (tsRef, some (ts % 32))
+
+/-- `encodeMessage` of the pinned tree -/
+def encodeMsgOld (o : Opts) (s : Lru × Nat) (m : WMsg) : (Lru × Nat) × Bytes :=
+  let (tsRef', off) := if o.compress then compressTsOld o.arch s.2 m else (s.2, none)
+  let m' : WMsg := match off with
+    | some _ => { m with fields := removeFirst tsFieldNum m.fields }
+    | none => m
+  let db := defBytes o.arch m'
+  let (lru', i, isNew) := s.1.put db
+  let hdr := match off with
+    | some t => (0x80 ||| t) ||| ((i <<< 5) % 256)
+    | none => i
+  ((lru', tsRef'), (if isNew then defRecord o.arch i m' else []) ++ (hdr :: payload m'))
+
+def encodeMsgsOld (o : Opts) : Lru × Nat → List WMsg → Bytes
+  | _, [] => []
+  | s, m :: ms => let (s', out) := encodeMsgOld o s m; out ++ encodeMsgsOld o s' ms
+
+/-- a message has no field 253, or exactly one: a `uint32` value (base type uint32/uint32z) that is a valid date-time -/
+def TsOK (arch : Nat) (m : WMsg) : Prop :=
+  noTs m.fields ∨ ∃ pre f post v, m.fields = pre ++ f :: post ∧ noTs pre ∧ noTs post ∧ f.num = 253 ∧ f.tag = 7 ∧
+    (f.bt = 0x86 ∨ f.bt = 0x8C) ∧ u32Of arch f.data = some v ∧ dateTimeMin ≤ v ∧ v < u32Invalid
+
+/-- timestamps are valid date-times, at most one per message, and never go backwards -/
+def TsMono (arch : Nat) : Nat → List WMsg → Prop
+  | _, [] => True
+  | lo, m :: ms => TsOK arch m ∧ (tsOf arch m ≠ u32Invalid → lo ≤ tsOf arch m) ∧
+      TsMono arch (if tsOf arch m = u32Invalid then lo else tsOf arch m) ms
+
+theorem encTsOf_noTs (arch : Nat) (m : WMsg) (h : noTs m.fields) : encTsOf arch m = u32Invalid := by
+  simp [encTsOf, find_noTs _ h]
+
+theorem step_conservative (o : Opts) (e : EncState) (lo : Nat) (m : WMsg)
+    (hok : TsOK o.arch m) (hlo : tsOf o.arch m ≠ u32Invalid → lo ≤ tsOf o.arch m)
+    (hinv : o.compress = true → e.tsLast = lo ∧ e.tsRef ≤ lo ∧ lo - e.tsRef ≤ 31) :
+    (encodeMsg o e m).2 = (encodeMsgOld o (e.lru, e.tsRef) m).2 ∧
+    (encodeMsg o e m).1.lru = (encodeMsgOld o (e.lru, e.tsRef) m).1.1 ∧
+    (encodeMsg o e m).1.tsRef = (encodeMsgOld o (e.lru, e.tsRef) m).1.2 ∧
+    (o.compress = true →
+      let lo' := if tsOf o.arch m = u32Invalid then lo else tsOf o.arch m
+      (encodeMsg o e m).1.tsLast = lo' ∧ (encodeMsg o e m).1.tsRef ≤ lo' ∧ lo' - (encodeMsg o e m).1.tsRef ≤ 31) := by
+  by_cases hc : o.compress = true
+  · obtain ⟨hl, hr, hn⟩ := hinv hc
+    rcases hok with hno | ⟨pre, f, post, v, hf, hpre, hpost, hnum, htag, hbt, hv, hmin, hmax⟩
+    · have h1 := tsOf_noTs o.arch m hno
+      have h2 := encTsOf_noTs o.arch m hno
+      have h3 := trackLast_noTs o.arch lo m.fields hno
+      simp [encodeMsg, encodeMsgOld, hc, compressTs, compressTsOld, h1, h2, h3, hl, hr, hn]
+    · have hval : tsOf o.arch m = v := tsOf_ts o.arch m pre post f v hf hpre hnum htag hv
+      have hclean : cleanTs o.arch f = some v := by
+        rcases hbt with h | h <;> simp [cleanTs, htag, tagUint32, h, hv]
+      have henc : encTsOf o.arch m = v := by
+        simp [encTsOf, hf, find_ts pre post f hpre hnum, hclean]
+      have hlast : trackLast o.arch e.tsLast m.fields = v := by
+        rw [hf, trackLast_append, trackLast_noTs _ _ _ hpre]
+        have : trackLast o.arch e.tsLast (f :: post) = trackLast o.arch v post := by
+          simp [trackLast, hnum, tsFieldNum, hclean]
+        rw [this, trackLast_noTs _ _ _ hpost]
+      have hne : (v == u32Invalid) = false := by simp [u32Invalid] at hmax ⊢; omega
+      have hne' : v ≠ u32Invalid := by simp [u32Invalid] at hmax ⊢; omega
+      have hge : ¬ v < dateTimeMin := by omega
+      have hlov : lo ≤ v := by have := hlo (by rw [hval]; exact hne'); rwa [hval] at this
+      have hv32 : v < 4294967296 := by simp [u32Invalid] at hmax; omega
+      have hs1 : (v + 4294967296 - e.tsRef) % 4294967296 = v - e.tsRef := by omega
+      have hs2 : (v + 4294967296 - e.tsLast) % 4294967296 = v - lo := by rw [hl]; omega
+      by_cases hroll : v - e.tsRef > 31
+      · have hct : compressTs o.arch e.tsRef e.tsLast m = (v, v, none) := by
+          simp [compressTs, henc, hlast, hne, hge, hs1, hs2, hroll]
+        have hco : compressTsOld o.arch e.tsRef m = (v, none) := by
+          simp [compressTsOld, hval, hne, hge, hs1, hroll]
+        simp [encodeMsg, encodeMsgOld, hc, hct, hco, hval, hne']
+      · have hnear : ¬ v - lo > 31 := by omega
+        have hct : compressTs o.arch e.tsRef e.tsLast m = (e.tsRef, v, some (v % 32)) := by
+          simp [compressTs, henc, hlast, hne, hge, hs1, hs2, hroll, hnear]
+        have hco : compressTsOld o.arch e.tsRef m = (e.tsRef, some (v % 32)) := by
+          simp [compressTsOld, hval, hne, hge, hs1, hroll]
+        simp [encodeMsg, encodeMsgOld, hc, hct, hco, hval, hne']
+        omega
+  · have hc' : o.compress = false := by simpa using hc
+    simp [encodeMsg, encodeMsgOld, hc']
+
+theorem TsMono.cons_none {arch lo : Nat} {m : WMsg} {ms : List WMsg} (h : noTs m.fields) (hr : TsMono arch lo ms) :
+    TsMono arch lo (m :: ms) := by
+  have := tsOf_noTs arch m h
+  exact ⟨Or.inl h, fun hne => absurd this hne, by simpa [this] using hr⟩
+
+theorem TsMono.cons_ts {arch lo : Nat} {m : WMsg} {ms : List WMsg} (pre post : List WField) (f : WField) (v : Nat)
+    (hm : m.fields = pre ++ f :: post) (h1 : noTs pre) (h2 : noTs post) (hnum : f.num = 253) (htag : f.tag = 7)
+    (hbt : f.bt = 0x86 ∨ f.bt = 0x8C) (hv : u32Of arch f.data = some v) (hmin : dateTimeMin ≤ v) (hmax : v < u32Invalid)
+    (hlo : lo ≤ v) (hr : TsMono arch v ms) : TsMono arch lo (m :: ms) := by
+  have hval := tsOf_ts arch m pre post f v hm h1 hnum htag hv
+  have hne : v ≠ u32Invalid := Nat.ne_of_lt hmax
+  exact ⟨Or.inr ⟨pre, f, post, v, hm, h1, h2, hnum, htag, hbt, hv, hmin, hmax⟩, fun _ => by rw [hval]; exact hlo,
+    by rw [hval]; simpa [hne] using hr⟩
 
 /-! ### file header, file CRC, chained files -/
 open Fit.Crc in
@@ -756,7 +910,6 @@ structure FitOK (o : Opts) (h : Hdr) (ms : List WMsg) : Prop where
   nonempty : ms ≠ []
   msgs : ∀ m ∈ ms, MsgOK m
   small : (encodeMsgs o (freshEnc o) ms).length < 4294967296
-  ts : o.compress = true → TsMono o.arch 0 ms
 
 structure OptsOK (o : Opts) : Prop where
   arch : o.arch = 0 ∨ o.arch = 1
@@ -813,9 +966,9 @@ theorem decodeFit_encodeFit (tsKnown : Nat → Bool) (checksum : Bool) (o : Opts
     (ms : List WMsg) (hf : FitOK o h ms) (tail : Bytes) :
     ∃ f, decodeFit tsKnown checksum (encodeFit o h ms ++ tail) = (f.items, .ok (f, tail)) ∧ FitMatches o (h, ms) f := by
   have hpos := encodeMsgs_pos o (freshEnc o) ms hf.nonempty
-  obtain ⟨items, hdec, hall⟩ := encodeMsgs_roundtrip tsKnown o ho.arch ms (freshEnc o) DecState.fresh 0 hf.msgs
+  obtain ⟨items, hdec, hall⟩ := encodeMsgs_roundtrip tsKnown o ho.arch ms (freshEnc o) DecState.fresh hf.msgs
     (DefInv.fresh o.arch o.lruCap ho.capPos ho.cap16 _) ho.cap4
-    (fun hc => ⟨⟨rfl, rfl, Nat.le_refl _, by simp [freshEnc], by decide⟩, hf.ts hc⟩)
+    (fun _ => Or.inl rfl)
     (le16 (write 0 (encodeMsgs o (freshEnc o) ms)) ++ tail)
     (encodeMsgs o (freshEnc o) ms ++ (le16 (write 0 (encodeMsgs o (freshEnc o) ms)) ++ tail)).length
     (by simp [List.length_append])
